@@ -93,6 +93,37 @@ mut('C11', 'handler_output_handover_removed', S, """			n.mu.Lock()
 			n.mu.Unlock()
 """, "")
 
+# ---- worker W(n)
+mut('C03', 'retry_guard_off_by_one', S, """node.data.Step.RetryPolicy.Limit > node.getRetryCount():""", """node.data.Step.RetryPolicy.Limit >= node.getRetryCount():""")
+mut('C03', 'inc_retry_count_removed', S, """							// retry
+							node.incRetryCount()
+""", """							// retry
+""")
+mut('C03', 'execnode_ignores_dry', S, """func (sc *Scheduler) execNode(ctx context.Context, n *Node) error {
+	if !sc.dry {
+		return n.Execute(ctx)
+	}
+	return nil""", """func (sc *Scheduler) execNode(ctx context.Context, n *Node) error {
+	return n.Execute(ctx)""")
+mut('C03', 'retry_executes_inline_twice', S, """							time.Sleep(node.data.Step.RetryPolicy.Interval)
+							node.setRetriedAt(time.Now())
+							node.setStatus(NodeStatusNone)""", """							time.Sleep(node.data.Step.RetryPolicy.Interval)
+							node.setRetriedAt(time.Now())
+							execErr = sc.execNode(ctx, node)
+							node.setStatus(NodeStatusNone)""")
+mut('C02', 'worker_default_branch_writes_finished', S, """							// finish the node
+							node.setStatus(NodeStatusError)
+							node.setErr(execErr)""", """							// finish the node
+							node.setStatus(NodeStatusSuccess)""")
+mut('C02', 'worker_failure_not_recorded_in_run_error', S, """							node.setStatus(NodeStatusError)
+							node.setErr(execErr)
+							sc.setLastError(execErr)""", """							node.setStatus(NodeStatusError)
+							node.setErr(execErr)""")
+mut('C12', 'worker_teardown_calls_removed', S, """				defer func() {
+					_ = sc.teardownNode(node)
+				}()
+""", "")
+
 def main():
     import glob
     for f in glob.glob(V + '/C*/*.patch'):
